@@ -1,4 +1,6 @@
 import NeoFS.Lemmas.Netmap
+import NeoFS.Generated.Consts
+import NeoFS.Generated.Footprint
 /-! # C07 — Netmap candidates follow the add/update/remove state machine in both lists
 
 Property theorems only. The specification `Spec.candStep` / `Spec.candRun` (NeoFS/Lemmas/NetmapSpec.lean) is
@@ -73,6 +75,21 @@ theorem listings_are_the_table (hist : List (Env × Op)) :
 the `Key` field, 33 bytes) and is Online or under Maintenance — never Offline, never an unknown state -/
 theorem records_wellformed (hist : List (Env × Op)) : Spec.CandWF (abs (run init hist)) := by
   rw [candidates_follow_requests]; exact candWF_run candWF_empty hist
+
+/-- the same from the deployment whose snapshot count was changed once before anything else (`initWith k`, the further
+roots of the histories; the candidate table does not depend on the snapshot count) -/
+theorem candidates_follow_requests_resized (k : Nat) (hist : List (Env × Op)) :
+    abs (run (initWith k) hist) = Spec.candRun Spec.Cand.empty hist := by
+  rw [abs_run, abs_initWith]
+
+theorem records_wellformed_resized (k : Nat) (hist : List (Env × Op)) : Spec.CandWF (abs (run (initWith k) hist)) := by
+  rw [candidates_follow_requests_resized]; exact candWF_run candWF_empty hist
+
+example :
+    let a : Key := List.replicate 33 1
+    let env : Env := ⟨true, [a], 9, fun _ => true, fun _ _ => true⟩
+    (abs (run (initWith 256) [(env, .addNode ⟨[[97]], [], a, 1⟩), (env, .newEpoch 128)]) a).structured =
+      some ⟨[[97]], [], a, 1⟩ := by decide
 
 example :
     let a : Key := List.replicate 33 1
@@ -249,5 +266,36 @@ theorem ticks_and_subscriptions_keep_candidates (s : State) (env : Env) (op : Op
     (hop : Spec.isCandOp op = false) : abs (invoke s env op).1 = abs s := by
   rw [invocation_refines_spec]
   cases op <;> first | rfl | cases hop
+
+/-! ## Frame of the model, regenerated: who can write the candidate set
+
+Checked by kernel evaluation over `NeoFS.Generated.Footprint.table` (grouped by contract: `contracts`), the MAY-WRITE footprint recomputed from the Go sources on
+every run (`extract footprint`; `Model/Footprint.lean`). -/
+section Footprint
+open NeoFS.Footprint NeoFS.Generated.Footprint
+
+def fpCandidates : Fam := startingWith NeoFS.Generated.netmap_candidatePrefix_bytes
+def fpCandidates2 : Fam := startingWith NeoFS.Generated.netmap_node2CandidatePrefix_bytes
+
+/-- "The candidate set is exactly what the sequence of successful addPeer/addPeerIR/addNode/updateState/updateStateIR/deleteNode
+calls implies": no other method (the upgrade migration of the legacy format excepted) can put or delete a candidate key of either
+format; the `add*` methods never delete one. -/
+theorem candidates_written_only_by_the_candidate_methods :
+    onlyBy contracts "netmap" "put" fpCandidates ["addPeer", "addPeerIR", "updateState", "updateStateIR", "deleteNode", "_deploy"] = true ∧
+    onlyBy contracts "netmap" "put" fpCandidates2 ["addNode", "updateState", "updateStateIR", "deleteNode"] = true ∧
+    onlyBy contracts "netmap" "delete" fpCandidates ["updateState", "updateStateIR", "deleteNode"] = true ∧
+    onlyBy contracts "netmap" "delete" fpCandidates2 ["updateState", "updateStateIR", "deleteNode"] = true := by decide +kernel
+
+/-- Each candidate method writes nothing but candidate keys. -/
+theorem candidate_methods_write_only_candidates :
+    ["addPeer", "addPeerIR", "addNode", "updateState", "updateStateIR", "deleteNode"].all
+      (fun m => writesWithin contracts "netmap" m [fpCandidates, fpCandidates2]) = true := by decide +kernel
+
+example : does contracts "netmap" "addPeer" "put" fpCandidates = true ∧ does contracts "netmap" "addNode" "put" fpCandidates2 = true ∧
+    does contracts "netmap" "deleteNode" "delete" fpCandidates = true ∧ does contracts "netmap" "updateState" "delete" fpCandidates2 = true := by
+  decide +kernel
+example : onlyBy (withRow contracts ⟨"netmap", "setConfig", "put", "", "", NeoFS.Generated.netmap_candidatePrefix_bytes, false⟩)
+    "netmap" "put" fpCandidates ["addPeer", "addPeerIR", "updateState", "updateStateIR", "deleteNode", "_deploy"] = false := by decide +kernel
+end Footprint
 
 end NeoFS.Props.C07
